@@ -292,16 +292,16 @@ func doRead(root string, tfirst, tlast int64, res *ReadResult) error {
 	}
 	// query over all interfaces with per-block resolution
 	stmt := &query.Statement{
-		Ifaces:     ifaces,
-		QueryType:  "time,iface,sip,dip,dport,proto",
+		Ifaces:        ifaces,
+		QueryType:     "time,iface,sip,dip,dport,proto",
 		LabelSelector: types.LabelSelector{Timestamp: true, Iface: true},
-		First:      tfirst,
-		Last:       tlast,
-		NumResults: 1 << 30,
-		MaxMemPct:  query.DefaultMaxMemPct,
-		Format:     "json",
-		SortBy:     results.SortTime,
-		Direction:  types.DirectionBoth,
+		First:         tfirst,
+		Last:          tlast,
+		NumResults:    1 << 30,
+		MaxMemPct:     query.DefaultMaxMemPct,
+		Format:        "json",
+		SortBy:        results.SortTime,
+		Direction:     types.DirectionBoth,
 	}
 	t0 := time.Now()
 	r, err := engine.NewQueryRunner(root).RunStatement(context.Background(), stmt, nil)
